@@ -734,7 +734,7 @@ struct Infl<'a> {
 }
 fn infl_fmt(p: *const ()) -> String {
     let i = unsafe { &*(p as *const Infl) };
-    a_case_string(i.case, i.ops)
+    format!("replaycase=<<{}>>", a_case_string(i.case, i.ops))
 }
 
 /// Runs one history on a fresh arena.
